@@ -7,6 +7,7 @@ mod crdt;
 mod image;
 mod ks;
 mod lin;
+mod node;
 mod parse;
 mod place;
 mod recov;
@@ -68,6 +69,7 @@ fn main() {
         "parse" => parse::main(rest),
         "image" => image::main(rest),
         "lin" => lin::main(rest),
+        "node" => node::main(rest),
         "repro" => repro::main(rest),
         m => {
             eprintln!("unknown module {m}");
